@@ -1381,10 +1381,10 @@ impl Context {
                         let type_id = self.module.type_registry.get_template_type(*id).type_id;
                         return Some(VariableExpression::Type(type_id));
                     }
-                    ScopeSymbol::TemplateValue(_) => {
-                        // We do not expect to need to find template values when in value form
+                    ScopeSymbol::TemplateValue(id) => {
                         // These become named constants before parsing internals
-                        unreachable!()
+                        // Only the signature of the template can still find the parameter itself
+                        return Some(VariableExpression::TemplateValue(*id));
                     }
                     ScopeSymbol::Constant(c) => {
                         // Return a name bound to an evaluated constant value
